@@ -237,3 +237,11 @@ CHECKS["C32"] = {
     "level_note": "exhaustive only for the small configuration space; lossless lock-step delivery; 2-byte names with wildcard characters are left out (not publishable in MQTT)",
     "design_ref": "3/C32",
 }
+
+CHECKS["C33"] = {
+    "level": "exploration",
+    "technique": "runtime monitoring in virtual time: wire-state oracle over timestamped PINGREQ datagrams of the real client library (keep-alive enabled) against a scripted gateway; API calls placed on a grid around the keep-alive tick instants",
+    "level_text": "About 1600 (quick) programs with Sleep/Connect/Publish/Subscribe/Ping/Disconnect calls placed just before, exactly at and just after keep-alive ticks and during slow or retried keep-alive exchanges; the monitor rebuilds active/asleep/disconnected windows from the wire and checks ping spacing while active, silence while asleep or disconnected (incl. retransmissions of a ping begun earlier), and that no API call fails or hangs because of a keep-alive exchange.",
+    "level_note": "virtual time (synctest, post-1.23 ticker semantics); same-instant ties between a tick and a state change are not judged",
+    "design_ref": "3/C33",
+}
